@@ -12,7 +12,8 @@ from ..engines import tree
 from ..rawsnap import rawsnap
 from ..validity import check_valid
 
-CLOSERS = ["normal", "exception", "explicit", "fetch_active", "save_as", "exception_after_close"]
+CLOSERS = ["normal", "exception", "explicit", "fetch_active", "save_as", "exception_after_close",
+           "helper_on_closed_exception", "helper_mode_switch_exception"]
 
 
 class Boom(Exception):
@@ -63,9 +64,84 @@ class C11(Check):
                    "crash points are between two API operations"]
 
     def strategy(self, tier):
-        return program_strategy(20 if tier == "quick" else 35)
+        main = program_strategy(20 if tier == "quick" else 35)
+        memory = st.fixed_dictionaries({
+            "family": st.just("memory"), "holes": st.integers(0, 3), "points": st.integers(0, 2),
+            "closer": st.sampled_from(["save_as", "close_then_save_as", "with_then_save_as", "exception_then_save_as"]),
+            "vals": st.lists(st.integers(-9, 9), min_size=3, max_size=6), "version": st.sampled_from([2.0, 2.1]),
+        })
+        return st.one_of(main, main, main, main, memory)
+
+    def run_memory(self, p):
+        """An in-memory workspace (no file yet) closed / saved to disk: every completed operation must be in the file."""
+        from geoh5py.groups import DrillholeGroup
+        from geoh5py.objects import Drillhole, Points
+        from geoh5py.workspace import Workspace
+
+        res = CaseResult()
+        ws = Workspace(version=p["version"])
+        target = env.new_path("mem")
+        expect = {"points": [], "holes": []}
+        twin = None
+        try:
+            try:
+                with ws:
+                    for k in range(p["points"]):
+                        pts = Points.create(ws, name=f"p{k}", vertices=np.c_[np.arange(3.0) + k, np.zeros(3), np.zeros(3)])
+                        pts.add_data({"v": {"values": np.asarray(p["vals"][:3], dtype=float)}})
+                        expect["points"].append((f"p{k}", [float(v) for v in p["vals"][:3]]))
+                    if p["holes"]:
+                        grp = DrillholeGroup.create(ws, name="dh")
+                        for k in range(p["holes"]):
+                            hole = Drillhole.create(ws, parent=grp, name=f"h{k}", collar=[float(k), 0.0, 0.0],
+                                                    surveys=np.asarray([[0.0, 0.0, -90.0], [10.0, 0.0, -90.0]]))
+                            hole.add_data({"a": {"depth": np.asarray([0.0, 1.0, 2.0]), "values": np.asarray(p["vals"][:3], dtype=float) + k}})
+                            expect["holes"].append((f"h{k}", [float(v) + k for v in p["vals"][:3]]))
+                    if p["closer"] == "save_as":
+                        ws.save_as(target)
+                    elif p["closer"] == "close_then_save_as":
+                        ws.close()
+                        ws.save_as(target)
+                    elif p["closer"] == "exception_then_save_as":
+                        raise Boom("crash")
+            except Boom:
+                pass
+            if p["closer"] in ("with_then_save_as", "exception_then_save_as"):
+                ws.save_as(target)
+            res.label("closer:memory:" + p["closer"])
+            ws.close()
+            if env.open_ids_of(target):
+                res.fail(f"C11/handle-left-open/memory:{p['closer']}//", "HDF5 identifiers still open on the saved file")
+                return res
+            try:
+                twin = Workspace(target, mode="r")
+                for name, vals in expect["points"]:
+                    ent = twin.get_entity(name)[0]
+                    got = None if ent is None or not ent.get_data("v") else [float(x) for x in ent.get_data("v")[0].values]
+                    if got != vals:
+                        res.fail(f"C11/completed-op-missing/memory:{p['closer']}/Points/values", f"{name}: file holds {got}, written {vals}")
+                        return res
+                for name, vals in expect["holes"]:
+                    ent = twin.get_entity(name)[0]
+                    data = ent.get_data("a") if ent is not None else []
+                    got = [float(x) for x in data[0].values] if data else None
+                    if got != vals:
+                        res.fail(f"C11/completed-op-missing/memory:{p['closer']}/Drillhole/values", f"{name}: file holds {got}, written {vals}")
+                        return res
+            except Exception as exc:
+                res.fail(f"C11/cannot-reopen/memory:{p['closer']}//{type(exc).__name__}", f"{type(exc).__name__}: {exc}"[:300])
+                return res
+            res.nontrivial = p["holes"] + p["points"] >= 2
+            return res
+        except Exception as exc:
+            res.fail(f"C11/closer-raises/memory:{p['closer']}//{type(exc).__name__}", f"{type(exc).__name__}: {exc}"[:300])
+            return res
+        finally:
+            env.close_quietly(ws, twin)
 
     def shrink_candidates(self, program):
+        if program.get("family") == "memory":
+            return
         build = program["build"]
         ops = build["ops"]
         for i in range(len(ops)):
@@ -82,6 +158,8 @@ class C11(Check):
         from geoh5py.shared.utils import fetch_active_workspace
         from geoh5py.workspace import Workspace
 
+        if program.get("family") == "memory":
+            return self.run_memory(program)
         res = CaseResult()
         build = program["build"]
         ops = build["ops"]
@@ -129,6 +207,16 @@ class C11(Check):
                         new_path = env.new_path("saved")
                         extra_paths.append(new_path)
                         ws.save_as(new_path)
+                if closer == "helper_on_closed_exception":
+                    # the block was left normally (workspace closed); a helper re-opens it and an exception escapes
+                    with fetch_active_workspace(ws, "r") as active:
+                        len(active.objects)
+                        raise sentinel
+                if closer == "helper_mode_switch_exception":
+                    ws.open(mode="r")
+                    with fetch_active_workspace(ws, "r+") as active:  # closes 'r', re-opens 'r+'
+                        len(active.objects)
+                        raise sentinel
             except Boom as exc:
                 caught = exc
             except Exception as exc:
@@ -136,7 +224,7 @@ class C11(Check):
                 return res
             res.label("closer:" + closer)
             # (1)
-            if closer in ("exception", "exception_after_close"):
+            if closer in ("exception", "exception_after_close", "helper_on_closed_exception", "helper_mode_switch_exception"):
                 if caught is not sentinel:
                     res.fail(f"C11/exception-not-propagated/{closer}//", f"raised {sentinel!r}, caught {caught!r}")
                     return res
